@@ -138,8 +138,9 @@ def _rank(spec, ctx, R):
     A, _, _ = refq.with_singular_values(rng, m, n, s)
     if spec["idx"] % 7 == 3:
         A = gen.layout(A, gen.LAYOUTS[spec["idx"] % len(gen.LAYOUTS)])
-    if spec["idx"] % 11 == 5:
-        A = A * float(rng.choice([1e-6, 1e6]))
+    if spec["idx"] % 4 == 1:
+        # uniform scaling (multiplication by the invertible c*I) incl. extreme magnitudes: rank and null spaces do not depend on it
+        A = A * float(rng.choice([1e-15, 1e-12, 1e-6, 1e6, 1e12]))
     if r == 0:
         A = refq.zeros(m, n)
         ctx.hit("rank:zero_matrix")
